@@ -1,18 +1,20 @@
 import VaxisModel.Model.InputLoop
 import VaxisModel.Lemmas.InputLoop
 
-/-! F12 (recorded, not fixed): `CursorPosition()` times out after `handleSequence` has consumed
-the request flag but before it sends on the unbuffered `chCursorPos`.  The requester is gone, the
-send can never complete, and the input goroutine never returns to its `select` (until some later
-`CursorPosition()` call happens to receive the stale answer). -/
+/-! F12 (fixed in /repo: `chCursorPos` buffered, non-blocking hand-off, stale answer dropped by the
+next call): with the hand-off written as before the repair — bare send on an unbuffered channel
+(`Kinds.original`, `cursorCap := 0`, no drain) — `CursorPosition()` can time out after
+`handleSequence` has consumed the request flag but before it sends.  The requester is gone, the
+send can never complete, and the input goroutine never returns to its `select`.  With the current
+source's parameters the same schedule is harmless (`Props.C03.never_wedges` and its example). -/
 namespace VaxisModel.Witness.F12
 open VaxisModel.Model.Input VaxisModel.Model.InputLoop VaxisModel.Lemmas.InputLoop
 
-def P : Params := { qcap := 1024, kinds := Kinds.ofGen, b64 := fun _ => none }
+def P : Params := { qcap := 1024, kinds := Kinds.original, b64 := fun _ => none, cursorCap := 0, cursorDrain := false }
 
 def cpr : Seq := .csi [] [[3], [7]] (ch 'R')
 
-/-- The witness run, with the send kinds of the *current* source. -/
+/-- The witness run, with the hand-off of the source before the repair. -/
 def witness : List Label := [.cursorCall, .input cpr, .cursorTimeout]
 
 theorem reaches_stuck_state :
@@ -40,7 +42,7 @@ theorem stuck_forever (s : Sys) (r c : Int) (hp : s.pend = [.sendCursorPos r c])
     have ht : ∀ l ∈ t, l.internal = true := fun l hl => hi l (by simp [hl])
     cases l <;> simp [Label.internal] at hl
     · have hk : P.kinds.cursorPos = .blocking := by decide
-      simp [run, next, hp, stepEffect, hw, hk] at h
+      simp [run, next, hp, stepEffect, hw, P, Kinds.original] at h
     · simp [run, next, hp] at h
     · simp only [run, next] at h
       split at h
@@ -51,7 +53,7 @@ theorem stuck_forever (s : Sys) (r c : Int) (hp : s.pend = [.sendCursorPos r c])
           exact ih _ (by simpa using hp) (by simpa using hw) s' ht h
       · simp at h
 
-/-- The full never-wedges statement is false of the current code. -/
+/-- The full never-wedges statement was false of the code before the repair. -/
 theorem never_wedges_fails :
     ¬ (∀ s, Reachable P {} s → ∃ ls s', (∀ l ∈ ls, l.internal = true) ∧ run P s ls = some s' ∧ s'.pend = []) := by
   intro hall
